@@ -10,7 +10,10 @@ CONFIGS = {
     # name -> (cargo args, crates to dump, packages)
     'default': ([], 'parity_db', '-p parity-db'),
     'instrumentation': (['--features', 'instrumentation'], 'parity_db', '-p parity-db'),
+    # the shape `cargo build --release` compiles: no debug assertions, no overflow checks
+    'release-shape': ([], 'parity_db', '-p parity-db'),
 }
+EXTRA_RUSTFLAGS = {'release-shape': '-C debug-assertions=off -C overflow-checks=off'}
 
 BODY_FLOOR = 900      # 929 bodies counted on the pinned tree (default config)
 
@@ -38,6 +41,7 @@ def get_facts(cfg='default'):
             env['PDB_FACTS_CRATES'] = crates
             env['PDB_PKGS'] = pkgs
             env['PDB_REPO'] = REPO
+            env['PDB_EXTRA_RUSTFLAGS'] = EXTRA_RUSTFLAGS.get(cfg, '')
             r = subprocess.run([os.path.join(VERIF, 'bin', 'extract_facts.sh'), cfg, out] + args,
                                env=env, stdout=subprocess.PIPE, stderr=subprocess.STDOUT, text=True)
             if r.returncode != 0:
